@@ -1075,6 +1075,14 @@ def stream_params(pipe, res, rng, tier):
                 add(w=w, pname=pn, modes=ms)
         for pn in ['INIT', 'START', 'table']:
             add(w=w, pname=pn, modes=('forward', 'literal'), child_kw=True)
+        # modules with 2 .. 4 parameters (direct values, forwarded, chains) at depth 1 .. 4
+        for extra in (1, 2, 3):
+            for ms in [('quad',), ('tri',), ('quad', 'tri', 'forward'), ('comb', 'quad')]:
+                for levels in ((1, 2, 3) if q else (1, 2, 3, 4)):
+                    if q and (extra + len(ms) + levels) % 2 and levels > 1:
+                        continue
+                    add(w=w, pname='START', modes=ms, levels=levels, extra=extra)
+        add(w=w, pname='INIT', modes=('quad', 'tri'), levels=1, extra=0)
         for outer in outers:
             for pn in (['INIT', 'START', outer] if not q or outer in ('BASE', 'INIT') else ['START']):
                 for fwd in (True, False):
